@@ -31,6 +31,9 @@ type Reply struct {
 	Dup     int               `json:"dup"`      // extra copies
 	DupUs   int64             `json:"dup_us"`   // spacing of the copies
 	Tag     string            `json:"tag"`      // free label copied to the trace
+	Patch   [][2]int          `json:"patch"`    // junk: byte patches (offset from the IP header, value) applied after encoding
+	Trunc   int               `json:"trunc"`    // junk: keep only the first n bytes (0 = keep all; n is clamped to len-1)
+	Append  int               `json:"append"`   // junk: append n garbage bytes
 }
 
 // NumMap / StrMap accept the "[]" that TLC's Json module emits for an empty function.
@@ -94,8 +97,31 @@ func (r Reply) modA(k string, def netip.Addr) netip.Addr {
 	return def
 }
 
-// Encode builds the reply bytes for the given probe.
+// Encode builds the reply bytes for the given probe and applies the junk transformations.
 func (r Reply) Encode(probe []byte, fl Flow) ([]byte, error) {
+	b, err := r.encode(probe, fl)
+	if err != nil {
+		return nil, err
+	}
+	for _, p := range r.Patch {
+		if p[0] >= 0 && p[0] < len(b) {
+			b[p[0]] = byte(p[1])
+		}
+	}
+	if r.Trunc > 0 {
+		n := r.Trunc
+		if n > len(b)-1 {
+			n = len(b) - 1
+		}
+		b = b[:n]
+	}
+	for i := 0; i < r.Append; i++ {
+		b = append(b, byte(0xa5^i))
+	}
+	return b, nil
+}
+
+func (r Reply) encode(probe []byte, fl Flow) ([]byte, error) {
 	pip, ppl, err := pkt.ParseIP(probe)
 	if err != nil {
 		return nil, fmt.Errorf("probe undecodable: %w", err)
